@@ -145,6 +145,10 @@ def model_desc(m, with_name=False, with_derived=True):
         "refs": {},
         "spaces": {},
     }
+    try:
+        d["iospecs"] = sorted([type(s).__name__, str(s.path), getattr(s, "_sheet", None)] for s in m.iospecs)
+    except Exception as exc:
+        d["iospecs"] = "error: %r" % (exc,)
     if with_name:
         d["name"] = m.name
     for n in m.refs:
